@@ -1,0 +1,25 @@
+//go:build verif
+
+package streams
+
+import (
+	internaltypes "lunar/engine/streams/internal-types"
+	publictypes "lunar/engine/streams/public-types"
+)
+
+// VerifC18UserFlows exposes (for the external verification harness, build tag
+// "verif" only) the user flow objects the filter tree selects for a
+// transaction, so that the harness can call Flow.GetExecutionContext and
+// Flow.CleanExecution on the very objects ExecuteFlow uses. It adds no
+// behaviour.
+func (s *Stream) VerifC18UserFlows(apiStream publictypes.APIStreamI) []internaltypes.FlowI {
+	res, ok := s.filterTree.GetFlow(apiStream)
+	if !ok {
+		return nil
+	}
+	flows, valid := res.GetUserFlow()
+	if !valid {
+		return nil
+	}
+	return flows
+}
